@@ -202,3 +202,9 @@ def _size_at(t, start_size, end_size, start_time, end_time, size_function):
             / (start_time - end_time)
         )
         return size_func(t)
+    elif size_function == "linear":
+        return start_size + (end_size - start_size) * (start_time - t) / (
+            start_time - end_time
+        )
+    else:
+        raise ValueError(f"{size_function} not a valid size function")
